@@ -80,6 +80,10 @@ def make_interp(ctx):
             if name == 'write':
                 ent['chunks'].append(args[0])
                 return None
+            if name == 'writelines':
+                for it in interp.iterate(args[0], node, keep_vars=True):
+                    ent['chunks'].append(it)
+                return None
             if name == 'read':
                 chunks = ent['chunks']
                 if 'b' in ent['mode']:
@@ -104,6 +108,11 @@ def make_interp(ctx):
             return Opaque(f'file.{name}')
         if isinstance(base, EncodedText) and name == 'decode':
             return base.text
+        if isinstance(base, EncodedText) and name == 'startswith' and len(args) == 1 and isinstance(args[0], (bytes, bytearray)) and len(args[0]) == 1:
+            if base.absint_len() == 0:
+                return False
+            first = base.absint_index(interp, 0, node)
+            return first == args[0][0] if isinstance(first, int) else interp.decide(node, 'first byte of symbolic text')
         return _NO
     ai.method_hooks.insert(0, hook)
 
